@@ -76,6 +76,11 @@ func main() {
 				{Op: "ConUnstake", A: 1, B: 3, V: v}},
 				func(o ledgerops.AbsOp) (string, string) { return []string{"0", "3"}[v%2], "" })
 		}
+		for v := 0; v < 6; v++ {
+			run([]ledgerops.AbsOp{{Op: "Deploy", A: 2, B: 3, V: 0}, {Op: "AuthCall", A: 1, B: 3, V: v % 3}, {Op: "AuthCall", A: 2, B: 3, V: (v + 1) % 3},
+				{Op: "AuthCall", A: 3, B: 3, V: v % 3}, {Op: "AuthCall", A: 1, B: 3, V: 3 + v%3}, {Op: "AuthCall", A: 2, B: 3, V: 3 + (v+1)%3}},
+				func(o ledgerops.AbsOp) (string, string) { return []string{"0", "0.25"}[v/3], "" })
+		}
 		for v := 0; v < 9; v++ {
 			run([]ledgerops.AbsOp{{Op: "Stake", A: 1, V: v % 3}, {Op: "Stake", A: 2, V: 2}, {Op: "Refund", A: 1, V: v % 3}, {Op: "Refund", A: 2, V: (v / 3) % 3},
 				{Op: "Refund", A: 1, V: (v + 1) % 3}, {Op: "Refund", A: 1, V: 0}, {Op: "Refund", A: 2, V: 0}, {Op: "Refund", A: 2, V: 1}},
@@ -83,13 +88,16 @@ func main() {
 		}
 	}
 	rng := vutil.Rng(6 + 1000**salt)
-	kinds := []string{"Transfer", "Transfer", "Transfer", "Deploy", "EthForward", "EthStale", "SelfDestruct2", "StaleGas", "CallForward", "CallRevert", "SelfDestruct", "CallCreate", "Stake", "Refund", "Mature", "CallExplicit", "CallExplicit", "SelfDestructFunded", "ConStake", "ConStake", "ConUnstake", "ConUnstake", "ConAddStake", "ConUnstakeAll", "Refund"}
+	kinds := []string{"Transfer", "Transfer", "Transfer", "Deploy", "EthForward", "EthStale", "SelfDestruct2", "StaleGas", "CallForward", "CallRevert", "SelfDestruct", "CallCreate", "Stake", "Refund", "Mature", "CallExplicit", "CallExplicit", "SelfDestructFunded", "ConStake", "ConStake", "ConUnstake", "ConUnstake", "ConAddStake", "ConUnstakeAll", "Refund", "AuthCall", "AuthCall"}
 	for i := 0; i < *nRandom; i++ {
 		ops := make([]ledgerops.AbsOp, 0, *length)
 		for j := 0; j < *length; j++ {
 			o := ledgerops.AbsOp{Op: kinds[rng.Intn(len(kinds))], A: 1 + rng.Intn(3), B: 1 + rng.Intn(3), V: rng.Intn(3)}
 			if o.Op == "CallExplicit" {
 				o.V = rng.Intn(54)
+			}
+			if o.Op == "AuthCall" {
+				o.V = rng.Intn(6)
 			}
 			if o.Op == "ConUnstake" || o.Op == "ConAddStake" {
 				o.V = rng.Intn(7)
